@@ -34,6 +34,9 @@ CHECKS = {
     "C24": dict(level="proof", technique=PROOF_TECH, design="DESIGN.md §5 C24",
                 text="the reset path is proved: _ConnectionFairy._reset leaves no open transaction for reset_on_return rollback/commit (or was told, under a call-site precondition, that the transaction is already reset) and DefaultDialect.reset_isolation_level restores the engine-wide level; ghost txn_open / iso_level per DBAPI connection. Bounded complement: all pool histories on a fake DBAPI.",
                 note="assumed driver contracts (do_rollback/do_commit/_assert_and_set_isolation_level); _finalize_fairy, checkin and Connection.close only in the bounded complement; server-side state outside"),
+    "C26": dict(level="proof", technique=PROOF_TECH, design="DESIGN.md §5 C26",
+                text="the _ConnectionRecord layer is proved against a ghost 'closed' flag per DBAPI connection: __connect leaves no half-open record when the creator fails, invalidate/close/__close close what they drop, get_connection never hands out a closed connection nor one that predates a pool-wide or soft invalidation (it is closed and replaced by a fresh one; on failure the record holds nothing), checkin runs every finalizer and returns the record exactly once (never on a double check-in). Bounded complement: fault at every DBAPI call position of every pool history.",
+                note="assumed externals (_invoke_creator, _close_connection, _return_conn); event hooks do not raise; checkout/_finalize_fairy/pre-ping retry loop bounded only"),
     "C28": dict(level="proof", technique=PROOF_TECH, design="DESIGN.md §5 C28",
                 text="_ClsLevelDispatch.update_subclass is proved for any MRO and any prior registry state: afterwards the target's collection holds, after what it held, every listener of every ancestor that has a collection, nothing else, and every other class's collection is untouched (loop invariant over the MRO). Bounded complement: listen/remove/dispatch histories against a ghost registry.",
                 note="other listener containers (_ListenerCollection, _EventKey, registry, exec_once) are bounded only; WeakKeyDictionary modelled as dict"),
@@ -96,7 +99,7 @@ CHECKS.update({
              "md5 and %-templating are CPython's", "DESIGN.md §5 C21"),
     "_C24_bounded_only": B("postcondition of Pool.connect() on a fake DBAPI with a ghost ledger: a handed-out connection has no open transaction and default isolation/autocommit unless reset_on_return=None; all histories <= 4 (quick) / 5 (thorough) x 4 pool classes x 3 reset_on_return settings. Bounded exploration.",
              "server-side session state on real backends and GC timing are outside", "DESIGN.md §5 C24", level="fault_enumeration"),
-    "C26": B("fault enumeration on a fake DBAPI: every pool history <= 5 (quick) / 6 (thorough) x a fault at every DBAPI call position (two faults for short histories) x 11 pool configurations; after all holders released: checkedout()==0, every ledger-open connection idle in the pool, nothing closed handed out, nothing predating an invalidation.",
+    "_C26_bounded_only": B("fault enumeration on a fake DBAPI: every pool history <= 5 (quick) / 6 (thorough) x a fault at every DBAPI call position (two faults for short histories) x 11 pool configurations; after all holders released: checkedout()==0, every ledger-open connection idle in the pool, nothing closed handed out, nothing predating an invalidation.",
              "weakref/GC timing; StaticPool/SingletonThreadPool with one holder only", "DESIGN.md §5 C26", level="fault_enumeration"),
     "_C28_bounded_only": B("ghost registry of listen/remove (insert/propagate/once/named) on a 3-class hierarchy with a late subclass and 2 instances; invocation sequence on dispatch == registry model, each once; all histories <= 3 (quick) / 4 (thorough) over 75 operations. Bounded exploration.",
              "concurrent exec-once and weakref clean-up of the registry not decided", "DESIGN.md §5 C28"),
